@@ -93,7 +93,8 @@ func verifH_C14_errors() {
 			verifAssume(verifOr(v > math.MaxInt32, v < math.MinInt32))
 			set = append(set, sql.SetClause{ObjectColumn: "a", UpdateSource: v})
 		default:
-			set = append(set, sql.SetClause{ObjectColumn: "s", UpdateSource: verifLongString("long", 380)})
+			// too long for every row, also for rows whose other columns are NULL (12 + 395 > 400)
+			set = append(set, sql.SetClause{ObjectColumn: "s", UpdateSource: verifLongString("long", 395)})
 		}
 		err = EvaluateUpdate(sql.UpdateStatementSearched{TableName: t.name, Set: set, Where: verifWhere("a", op, x)}, rs)
 		verifTag("stmt", "update")
